@@ -34,7 +34,11 @@ RULE = ('continuous objects: pardim 1-3, rational or not, bases open (clamped) o
 REQUIRED_TAGS = ['model-exact-map=exact-same', 'model-exact-lower=exact-same', 'pardim=1', 'pardim=2', 'pardim=3', 'rational', 'periodic-dir', 'open-only', 'form=raise', 'form=set',
                  'form=base', 'args=single', 'args=direction', 'args=tuple', 'all-zero', 'negative', 'set-lowering',
                  'amount=3', 'kind=basis', 'lower=ok', 'interior-mult>=2', 'ret=self', 'set-single-unequal', 'set-single-unequal-lowering']
-ASSUMPTIONS = ['np.linalg.inv / scipy spsolve are modelled by exact inverses (certificate-checked in the model); their '
+ASSUMPTIONS = ['proof level: full for clamped non-periodic continuous bases in one parametric direction (C05_knots, '
+               'C05_geometry_clamped_full, C05_lower_left_inverse_clamped: degree-elevation inclusion and Schoenberg-Whitney '
+               'are proved); partial (named hypotheses H_incl/H_sw, exercised exactly by the model run) for periodic bases and '
+               'for the pardim 2-3 composition of the per-direction steps',
+               'np.linalg.inv / scipy spsolve are modelled by exact inverses (certificate-checked in the model); their '
                'rounding error is bounded by RTOL times the measured condition number of the collocation matrix']
 
 
